@@ -37,6 +37,9 @@ M = [
     ("deletes-after-sets", BF3, "return del_key_list + conf_list", "return conf_list + del_key_list", 0, ["C10"], ["C10"]),
     ("DeviceSettings-comment-not-cleared", BF3, "self.comments.pop(\"DeviceSettings\", \"\")", "pass", 0, ["C11"], ["C11"]),
     ("customer-4-digits", CID, "fmtstr = \"{customer:05}-{projectId:04}-{device:04}-{version:02}\"", "fmtstr = \"{customer:04}-{projectId:04}-{device:04}-{version:02}\"", 0, ["C12"], ["C12"]),
+    ("raw-data-cached-per-component", BF3, "            cipher = create_AES128(session_key)\n            return cipher.encrypt(pad(self.blob))", "            cached = getattr(self, \"_raw\", None)\n            if cached is None:\n                cached = self._raw = create_AES128(session_key).encrypt(pad(self.blob))\n            return cached", 0, ["C06", "C03"], ["C06", "C03"]),
+    ("twin-baltech-scheme-not-is-none", CID, "        return self.customer is not None", "        return not (self.customer is None)", 0, "quiet", ["C12"]),
+    ("twin-dir-size-via-local-cache-recomputed", BF3, "        dir_size = len(directory)\n", "        dir_size = len(directory)\n        self._last_dir_size = dir_size\n", 0, "quiet", ["C03", "C01"]),
     ("page-size-0x1000", BF3, ") * 0x10000 + fwtag_rdr.read_int(2)", ") * 0x1000 + fwtag_rdr.read_int(2)", 0, ["C13"], ["C13"]),
     ("bf2-handler-narrowed", BF3, "            except (ValueError, IndexError, KeyError):", "            except ValueError:", 0, ["C14"], ["C14"]),
     ("crc-shift-2", BEC2, "^ (byte << 3) ^", "^ (byte << 2) ^", 0, ["C15"], ["C15"]),
